@@ -298,6 +298,27 @@ pub fn norm_units(scn: &Value) -> Value {
            "state_distance": g("state_distance", &d), "state_time": g("state_time", &t)})
 }
 
+/// offsets of the vehicle rates (rate(x) = factor * x + offset, in the feature's own unit): given by the scenario, or
+/// drawn from its shape for a quarter of the scenarios that take weights and rates from the configuration and use
+/// the model's own estimate; the time offset only where the model keeps a time feature
+pub fn rate_offsets(scn: &Value) -> (i64, i64) {
+    if let (Some(d), Some(t)) = (scn.get("od").and_then(|x| x.as_i64()), scn.get("ot").and_then(|x| x.as_i64())) {
+        return (d, t);
+    }
+    let ne = scn["E"].as_array().map(|a| a.len()).unwrap_or(0);
+    let nv = scn["nv"].as_u64().unwrap_or(0) as usize;
+    let eligible = scn["cost_src"].as_str().unwrap_or("config") != "query"
+        && scn["est_mode"].as_str().unwrap_or("real") == "real"
+        && scn["profile"].as_str().unwrap_or("exact") == "exact"
+        && (ne + nv) % 4 == 1;
+    if !eligible {
+        return (0, 0);
+    }
+    let od = 1 + (ne % 3) as i64;
+    let ot = if scn["model"].as_str().unwrap_or("speed") == "distance" { 0 } else { (nv % 3) as i64 };
+    (od, ot)
+}
+
 pub fn build_instance(scn: &Value) -> Result<Built, String> {
     let graph = Arc::new(build_graph(scn));
     let ne = graph.n_edges();
@@ -436,6 +457,41 @@ pub fn build_instance(scn: &Value) -> Result<Built, String> {
         cost_cfg["vehicle_rates"] = real_rates;
     }
     let mut cost_service = CostModelBuilder {}.build(&cost_cfg).map_err(|e| format!("cost builder: {}", e))?;
+    // every third network: the same rates written as chains (VehicleCostRate::Combined applies its members one after
+    // the other: raw then factor k = factor k, factor then zero = zero) - a form only library callers can build
+    if scn.get("rate_chain").and_then(|b| b.as_bool()).unwrap_or((ne + scn["nv"].as_u64().unwrap_or(0) as usize) % 3 == 0) {
+        let chained: HashMap<String, VehicleCostRate> = cost_service
+            .vehicle_rates
+            .iter()
+            .map(|(k, v)| {
+                let c = match v {
+                    VehicleCostRate::Zero => VehicleCostRate::Combined(vec![VehicleCostRate::Factor { factor: 5.0 }, VehicleCostRate::Zero]),
+                    VehicleCostRate::Raw => VehicleCostRate::Combined(vec![VehicleCostRate::Raw, VehicleCostRate::Raw]),
+                    other => VehicleCostRate::Combined(vec![VehicleCostRate::Raw, other.clone()]),
+                };
+                (k.clone(), c)
+            })
+            .collect();
+        cost_service.vehicle_rates = Arc::new(chained);
+    }
+    // rates with a constant term: an offset after the factor (the plain `offset` kind where the factor is 1)
+    let (od, ot) = rate_offsets(scn);
+    if od != 0 || ot != 0 {
+        let with_off: HashMap<String, VehicleCostRate> = cost_service
+            .vehicle_rates
+            .iter()
+            .map(|(k, v)| {
+                let off = if k == "distance" { od } else if k == "time" { ot } else { 0 };
+                let c = match v {
+                    _ if off == 0 => v.clone(),
+                    VehicleCostRate::Raw => VehicleCostRate::Offset { offset: off as f64 },
+                    other => VehicleCostRate::Combined(vec![other.clone(), VehicleCostRate::Offset { offset: off as f64 }]),
+                };
+                (k.clone(), c)
+            })
+            .collect();
+        cost_service.vehicle_rates = Arc::new(with_off);
+    }
     let sur = scn["sur"].as_array().unwrap();
     if sur.iter().any(|s| ji(s) != 0) {
         let lookup: HashMap<EdgeId, Cost> = sur
@@ -771,6 +827,9 @@ fn setup_event(scn: &Value, b: &Built, lg: &Lg) -> Value {
     ev["units"] = norm_units(scn);
     ev["rtf"] = json!(scn["rtf"].as_u64().unwrap_or(0));
     ev["rtx"] = json!(scn["rtx"].as_bool().unwrap_or(false));
+    let (od, ot) = rate_offsets(scn);
+    ev["od"] = json!(od);
+    ev["ot"] = json!(ot);
     ev
 }
 
@@ -1114,6 +1173,43 @@ pub fn main(args: &[String]) -> i32 {
         for _ in 0..n {
             let s = gen_scenario(&mut r, &o);
             guarded(&mut out, |out| run_scenario(out, &s));
+        }
+        if o.focus == "c10" {
+            // the limits as the application reads them: termination sections built by the configuration builder
+            // (time budgets are written H:MM:SS), alone and nested in a combined model
+            for i in 0..(n / 4).max(30) {
+                let (h, m, sec) = ([0u64, 0, 1, 2, 10, 100][r.gen_range(0..6)], r.gen_range(0..100u64), r.gen_range(0..100u64));
+                let text = match i % 9 {
+                    7 => format!("{}:{}:{:02}", h, m % 10, sec),      // minutes need two digits: refused
+                    8 => String::from("ten minutes"),
+                    _ => format!("{}:{:02}:{:02}", h, m, sec),
+                };
+                let (freq, itl, szl) = (r.gen_range(1..=50u64), r.gen_range(0..=2000u64), r.gen_range(0..=2000u64));
+                let rt = json!({"type": "query_runtime", "limit": text, "frequency": freq});
+                let cfg = if i % 2 == 0 { rt.clone() } else {
+                    json!({"type": "combined", "models": [{"type": "iterations", "limit": itl}, rt, {"type": "solution_size", "limit": szl}]})
+                };
+                let scn = json!({"check": "termcfg", "cfg": cfg});
+                guarded(&mut out, |out| {
+                    out.scenario(&scn);
+                    let built = routee_compass::app::compass::config::termination_model_builder::TerminationModelBuilder::build(&cfg, None);
+                    fn flat(t: &TerminationModel, acc: &mut Vec<Value>) {
+                        match t {
+                            TerminationModel::QueryRuntimeLimit { limit, frequency } => acc.push(json!(["rt", limit.as_millis() as u64 / 1000, limit.subsec_millis(), frequency])),
+                            TerminationModel::IterationsLimit { limit } => acc.push(json!(["it", limit, 0, 0])),
+                            TerminationModel::SolutionSizeLimit { limit } => acc.push(json!(["sz", limit, 0, 0])),
+                            TerminationModel::Combined { models } => models.iter().for_each(|m| flat(m, acc)),
+                        }
+                    }
+                    let mut models = vec![];
+                    if let Ok(t) = &built {
+                        flat(t, &mut models);
+                    }
+                    let wellformed = i % 9 < 7;
+                    out.event(json!({"ev": "TermBuilt", "ok": built.is_ok(), "wellformed": wellformed, "h": h, "m": m, "s": sec, "freq": freq,
+                                     "combined": i % 2 == 1, "itl": itl, "szl": szl, "models": models}));
+                });
+            }
         }
     }
     out.flush();
